@@ -324,6 +324,7 @@ func MsgBundles(ctx *core.Ctx, real *c16.Real, t *Tables, vals []Value) {
 							ctx.ToolError("msg family: no MsgNode in %s", src)
 							return
 						}
+						cs := &c16.Case{Files: []core.File{{Name: "a.soy", Text: src}}, Render: "a.m", ChainText: pair[0].Text + pair[1].Text}
 						walk := walkParts(msg.Body)
 						pluralIdx := func(nv int) int {
 							if nv == 1 {
@@ -365,7 +366,8 @@ func MsgBundles(ctx *core.Ctx, real *c16.Real, t *Tables, vals []Value) {
 												err = fmt.Errorf("PANIC: %v", p)
 											}
 										}()
-										return rd.Execute(&buf, d)
+										guard.Run(cs, v.X, func() { err = rd.Execute(&buf, d) })
+										return
 									}()
 									ln++
 									if rerr != nil {
